@@ -74,7 +74,7 @@ type SchemaOpts struct {
 	FormatAnyType  bool // allow "format" next to a non-string explicit type (exercises finding format-relaxes-type)
 	SpecialNames   bool // allow members named "id" / "$schema"
 	NullHeavy      bool
-	Deps           bool
+	NoDeps         bool
 	NoComposition  bool
 	OnlyObjectRoot bool
 }
@@ -353,7 +353,7 @@ func (g *SchemaGen) objectSchema(depth int) map[string]any {
 		s["maxProperties"] = g.smallInt(0, 4)
 		g.feat("nprops")
 	}
-	if (g.O.Deps || true) && g.R.P(0.2) {
+	if !g.O.NoDeps && g.R.P(0.2) {
 		deps := map[string]any{}
 		if g.R.Bool() {
 			deps[g.name()] = []any{g.name()}
